@@ -7,7 +7,10 @@ from torch.nn.common_types import _size_2_t, _size_3_t
 from torch.nn.modules.utils import _pair, _triple
 from torch.nn.functional import gumbel_softmax
 
-from ..functional import bin_op_cnn, bin_op_cnn_walsh, gumbel_sigmoid, soft_raw, soft_walsh, hard_raw, hard_walsh, WALSH_COEFFICIENTS
+from ..functional import (
+    GradFactor, bin_op_cnn, bin_op_cnn_walsh, gumbel_sigmoid, soft_raw, soft_walsh, hard_raw, hard_walsh,
+    WALSH_COEFFICIENTS,
+)
 
 
 class LogicConv2d(nn.Module):
@@ -142,6 +145,8 @@ class LogicConv2d(nn.Module):
 
     def forward(self, x):
         """Implement the binary tree using the pre-selected indices."""
+        if self.grad_factor != 1.0:
+            x = GradFactor.apply(x, self.grad_factor)
         current_level = x
         if self.padding > 0:
             current_level = torch.nn.functional.pad(
@@ -427,6 +432,8 @@ class LogicConv3d(nn.Module):
 
     def forward(self, x):
         """Implement the binary tree using the pre-selected indices."""
+        if self.grad_factor != 1.0:
+            x = GradFactor.apply(x, self.grad_factor)
         current_level = x
         # apply zero padding
         left_indices, right_indices = self.indices[0]
